@@ -90,8 +90,10 @@ Report(ln, viol) == \A v \in viol : PrintT(<<"MONFAIL", ln.tr, ln.i, v>>)
 
 Sanity0(ln) == { <<"X", "initial-grant-not-as-scheduled">> : x \in IF StateOf(ln.st) = WantOf(ln.a.want) THEN {} ELSE {1} }
 
+OneLine == Len(Trace) = 1 => PrintT(<<"CONSUMED", 1>>)
+
 TraceInit == /\ l = 1 /\ S = StateOf(Trace[1].st) /\ init = StateOf(Trace[1].st) /\ moved = ZeroMoved
-             /\ Report(Trace[1], Sanity0(Trace[1]))
+             /\ Report(Trace[1], Sanity0(Trace[1])) /\ OneLine
 
 TraceNext ==
     /\ l < Len(Trace)
